@@ -530,10 +530,43 @@ impl Reverse {
     }
     self.n += 1;
   }
-  pub fn run(self, env: &Env, out: &mut Out, eval: &dyn Fn(&Env, &mut Out, &str, &Case)) {
-    for (sub, case) in self.kept.iter().rev() {
-      run_case(env, out, sub, case, eval);
-      out.class("reverse_pass_cases");
+  /// Two extra passes over the kept sample, each on a fresh thread (so that thread-local memos of the library start
+  /// empty): descending, then in a seed-determined shuffled order. An answer that depends on which query came first
+  /// on the thread differs from the oracle in at least one of ascending (the sweep itself) / descending / shuffled.
+  pub fn run(self, env: &Env, out: &mut Out, eval: &(dyn Fn(&Env, &mut Out, &str, &Case) + Sync)) {
+    let kept = &self.kept;
+    let desc = std::thread::scope(|sc| {
+      sc.spawn(|| {
+        let mut o = Out::new();
+        for (sub, case) in kept.iter().rev() {
+          run_case(env, &mut o, sub, case, eval);
+          o.class("reverse_pass_cases");
+        }
+        o
+      })
+      .join()
+    });
+    match desc {
+      Ok(o) => out.merge(o),
+      Err(_) => out.note("reverse pass thread panicked outside a guarded call".to_string()),
+    }
+    let mut order: Vec<usize> = (0..kept.len()).collect();
+    order.sort_by_key(|&i| crate::model::mix(i as u64 ^ env.seed.wrapping_mul(0x9E3779B97F4A7C15)));
+    let shuf = std::thread::scope(|sc| {
+      sc.spawn(|| {
+        let mut o = Out::new();
+        for &i in order.iter().take(kept.len() / 2 + 1) {
+          let (sub, case) = &kept[i];
+          run_case(env, &mut o, sub, case, eval);
+          o.class("shuffled_pass_cases");
+        }
+        o
+      })
+      .join()
+    });
+    match shuf {
+      Ok(o) => out.merge(o),
+      Err(_) => out.note("shuffled pass thread panicked outside a guarded call".to_string()),
     }
   }
 }
